@@ -273,6 +273,12 @@ PROPERTIES["C13"] = {
           {"quick": "rotation state reached through the real code (0..3 peers, cursor advanced 0..n times), then all sequences of 3 operations from {add(uri), remove(uri), get_next} over 3 URIs",
            "thorough": "then all sequences of 4 operations"},
           params={"quick": {"ops": 3}, "thorough": {"ops": 4}}, budget={"quick": 300, "thorough": 1500}, required_covers=["c13.rotation"]),
+        M("c13_route_sweep", "d_c13", "route_sweep",
+          {"quick": "OutgoingMessageOrchestrator::{try_route_sync, route_message(wait_for_peer false/true)} (route_message as its coroutine) over 1..3 scripted peers, every rotation cursor; per peer a symbolic 'queue has room' boolean for the first poll and another for a second poll after the call parked in its blocking send; in the wait_for_peer case all peers connect while the sender waits",
+           "thorough": "1..4 peers"},
+          params={"quick": {"max_peers": 3}, "thorough": {"max_peers": 4}}, budget={"quick": 300, "thorough": 900},
+          required_covers=["c13.route.delivered-on-fast-path", "c13.route.skipped-a-full-peer", "c13.route.waited-for-first-peer", "c13.route.refused-when-all-full",
+                           "c13.route.parked-on-a-full-peer", "c13.route.resumed-after-park"]),
     ],
     "assumptions": MIRSYM_TRUST + ["histories are enumerated by forking (operation and URI choice); URIs are concrete strings, so this obligation is bounded exhaustive execution of the MIR rather than a solver query over symbolic data"],
     "manifest": {
@@ -336,8 +342,14 @@ PROPERTIES["C05"] = {
         M("c05_pair_convergence", "d_c05", "pair_convergence",
           {"quick": "client(DEALER)+server(ROUTER) engines wired back to back; NULL / PLAIN with equal / PLAIN with unequal symbolic credentials; routing id absent or 1 symbolic byte; the first 5 deliveries chosen freely from {direction} x {one byte, everything pending}, then alternate flushing",
            "thorough": "first 7 deliveries free"},
-          params={"quick": {"decisions": 5}, "thorough": {"decisions": 7}}, budget={"quick": 500, "thorough": 3300},
+          params={"quick": {"decisions": 5, "uneq_shapes": [0]}, "thorough": {"decisions": 7, "uneq_shapes": [0]}}, budget={"quick": 500, "thorough": 3300},
           required_covers=["c05.pair.converged", "c05.pair.refused"]),
+        M("c05_pair_credential_prefixes", "d_c05", "pair_convergence",
+          {"quick": "same two engines, PLAIN only, credentials unequal because one side's user name or password is a proper prefix of the other's (4 shapes, all bytes symbolic); first 3 deliveries free",
+           "thorough": "first 5 deliveries free"},
+          params={"quick": {"decisions": 3, "mechs": [2], "uneq_shapes": [1, 2, 3, 4], "id_lens": [0]},
+                  "thorough": {"decisions": 5, "mechs": [2], "uneq_shapes": [1, 2, 3, 4], "id_lens": [0]}}, budget={"quick": 400, "thorough": 1500},
+          required_covers=["c05.pair.refused", "c05.pair.uneq-shape-1", "c05.pair.uneq-shape-2", "c05.pair.uneq-shape-3", "c05.pair.uneq-shape-4"]),
         M("c05_fragmented_peers", "d_c04", "cut_independence",
           "the four honest peer transcripts of C04 (including a ZMTP/2.0 peer) delivered with a cut at every position: handshake outcome and reported peer type / identity independent of the fragmentation",
           params={"quick": {"cuts": 1}, "thorough": {"cuts": 1}}, budget={"quick": 400, "thorough": 600},
@@ -392,7 +404,10 @@ PROPERTIES["C13"]["assumptions"] = PROPERTIES["C13"]["assumptions"] + NOTIFY_TRU
 PROPERTIES["C13"]["manifest"]["engine"] = "mirsym+cfabmc"
 PROPERTIES["C13"]["manifest"]["technique"] += "; interleaving BMC (z3) of wait_for_connection vs add_connection over CFAs extracted from MIR"
 PROPERTIES["C13"]["manifest"]["text"] += " A sender in wait_for_connection never stays parked once a peer has been added, for every interleaving of the check / subscribe / add / notify operations."
-PROPERTIES["C13"]["manifest"]["note"] = "NOT claimed: skipping of full peers in route_message, fairness over time on live sockets, SNDTIMEO interplay."
+PROPERTIES["C13"]["manifest"]["text"] += " The readiness sweep of try_route_sync / route_message visits the peers in rotation order, each once; it parks on a peer or reports 'no room' only when no other peer has room at that moment; a message is handed over exactly once (1..3 scripted peers, symbolic readiness). One known finding: a send already parked on a full peer is not moved when ANOTHER peer gets room later."
+PROPERTIES["C13"]["manifest"]["technique"] += "; symbolic execution of the orchestrator's sweep (route_message coroutine from MIR) with z3 deciding the readiness conditions"
+PROPERTIES["C13"]["manifest"]["note"] = "NOT claimed: fairness over time on live sockets, SNDTIMEO interplay, DEALER's pending queue, real pipe capacities (readiness is a scripted boolean per peer and poll)."
+PROPERTIES["C13"]["outside"] = "live sockets, DEALER pending queue, timeouts"
 
 PROPERTIES["C10"] = {
     "mirsym": [
@@ -422,6 +437,9 @@ PROPERTIES["C18"] = {
         M("c18_record_length_prefix", "d_c18", "record_length_prefix",
           "LengthPrefixedFramer (the record layer of CURVE and NOISE_XX sessions) with an abstract cipher (16-byte tag followed by the plaintext): one message of 0, 1, 255, 256, 65000, 65508..65510, 65520 or 70000 payload bytes through write_msg_multipart, then the peer framer's try_read_msg",
           budget={"quick": 200, "thorough": 300}, required_covers=["c18.record.roundtrip", "c18.record.roundtrip-long", "c18.record.refused-at-sender"]),
+        M("c18_record_batch_paths", "d_c18", "record_batch_paths",
+          "LengthPrefixedFramer::write_msg_batch and ISecureFramer::frame_vectored (the session's batch egress paths) with the abstract cipher: two messages in one record, plaintext totals 22, 600, 65000, 65519..65521, 65527, 65535, 65536, 70000 bytes (the record limit minus the 16-byte tag is 65519), then the peer framer's try_read_msg twice",
+          budget={"quick": 300, "thorough": 400}, required_covers=["c18.batch.roundtrip", "c18.batch.roundtrip-long", "c18.batch.refused-at-sender"]),
         M("c18_heartbeat_through_record_layer", "d_c18", "heartbeat_through_record_layer",
           "engine in the Data phase with the encrypted record layer installed as active framer (abstract cipher): the PING emitted by on_tick and the PONG emitted for an inbound (encrypted) PING are fed to a peer record layer",
           budget={"quick": 200, "thorough": 300}, required_covers=["c18.heartbeat.roundtrip"]),
@@ -434,10 +452,10 @@ PROPERTIES["C18"] = {
         "design_ref": "DESIGN.md §5 C18",
         "note": "NOT claimed: payloads never appearing in clear, detection of bit flips / truncation / replay / reordering, distinct ciphertexts across sessions - properties of the AEAD and of key derivation (the CURVE data keys derive from the static key pairs only and the nonce counter restarts at 1; recorded as an observation in DESIGN.md, not decided by a check).",
     },
-    "outside": "secrecy, tamper detection, nonce/key freshness (cryptography); batches of several messages",
+    "outside": "secrecy, tamper detection, nonce/key freshness (cryptography); record sizes other than the listed boundary values",
 }
 
-HOOK_COMMITS = ["e6aec85", "b7f56e8", "904f401", "7ede9e5", "6da26bc"]
+HOOK_COMMITS = ["e6aec85", "b7f56e8", "904f401", "7ede9e5", "6da26bc", "f8dc301"]
 
 NOT_APPLICABLE = {
     "C09": "cancellation needs the drop glue of the suspended coroutine; rustc's -Zunpretty=mir dump does not contain coroutine drop shims, Kani cannot run async socket code, and the socket-level futures of the eight socket types reach into SocketCore/tokio; what the interleaving check can say (ready_tx.send never blocks, so ReadyPipeSender::send can only be cancelled at the pipe-full await) is reported under C08, not claimed here",
